@@ -152,6 +152,10 @@ def corr (c : Case) : Option String := Id.run do
       if let some e := cmpNat "relax.desc" d (c.int "relax.desc") then return some e
       if re != c.int "relax.end" then return some s!"relax.end model={re.toList} impl={(c.int "relax.end").toList}"
       if let some e := relaxProp n relax o.etree (c.nat "relax.desc") (c.int "relax.end") then return some ("relax_snode: " ++ e)
+    else
+      let (d, re) := heapRelaxSnode n relax o.etree
+      if let some e := cmpNat "heap_relax.desc" d (c.int "relax.desc") then return some e
+      if re != c.int "relax.end" then return some s!"heap_relax.end model={re.toList} impl={(c.int "relax.end").toList}"
   else
     let V := permView A p0
     if let some e := cmpNat "colbeg" V.colbeg (c.int "colbeg") then return some e
@@ -184,7 +188,7 @@ def handle (c : Case) : Res :=
   let tags := [s!"method={c.p "method"}", s!"sym={c.p "sym"}", s!"pat={c.p "pat"}",
     (if m == n then "shape=square" else if m < n then "shape=wide" else "shape=tall"),
     s!"fact={c.p "fact"}", s!"idx={c.p "idxbytes"}",
-    (if n ≤ 4 then "n=1..4" else if n ≤ 12 then "n=5..12" else if n ≤ 25 then "n=13..25" else "n=26.."),
+    (if n ≤ 4 then "n=1..4" else if n ≤ 12 then "n=5..12" else if n ≤ 25 then "n=13..25" else if n ≤ 40 then "n=26..40" else if n ≤ 120 then "n=60..120(no-def)" else "n=121..300(no-def)"),
     (if c.p "shuffled" == "1" then "rows=unsorted" else "rows=sorted")]
   match prop c with
   | some msg => Res.propFalse msg tags
